@@ -137,6 +137,15 @@ func corpusFor(c *Ctx) []*corpus.Program {
 		progs = append(progs, corpus.FW()...)
 		progs = append(progs, corpus.FS()...)
 	}
+	{
+		var sel []*corpus.Program
+		for _, p := range progs {
+			if !p.SignatureOnly {
+				sel = append(sel, p)
+			}
+		}
+		progs = sel
+	}
 	if v := os.Getenv("VERIF_CORPUS_MATCH"); v != "" { // debugging aid: only programs whose description contains v
 		var sel []*corpus.Program
 		for _, p := range progs {
